@@ -306,7 +306,12 @@ def main(argv=None):
             seen_known.add(fd['id'])
             print(f"KNOWN-FINDING: property={pid} {fd['what']}")
     rc = 0
+    shown = 0
     for kind, v in final_violations:
+        shown += 1
+        if shown > 6:
+            print(f"   ... {len(final_violations) - 6} more failed obligations / contract failures (see evidence)")
+            break
         name = v.get('obligation') or (v['function'] + '-' + v.get('kind', 'native'))
         payload = dict(property=pid, kind=kind, detail=v, tier=tier, seed=seed,
                        replay_cmd=f"./check {pid} --replay <this file>")
